@@ -213,6 +213,10 @@ class Report:
         if not fresh:
             self._check_required()
         self._write_evidence(len(fresh), {k: n for k, (_, n) in known.items()})
+        for t in self.tv:       # rejections owned by other properties' checks do not decide this one, but are never silent
+            if t.get("foreign_rejections"):
+                out_lines.append(f"NOTE property={self.pid} driver={t['driver']} foreign_rejections={t['foreign_rejections']} "
+                                 f"(clauses of other properties: {json.dumps(t.get('foreign_clauses', {}))})")
         for ln in out_lines:
             print(ln)
         states = sum(m["distinct_states"] for m in self.mc) + sum(t["tlc_states"] for t in self.tv)
